@@ -56,7 +56,11 @@ pub fn check(c: &gen_pp::Case) -> Result<(bool, bool), String> {
             let sa = defines_str(&da, false, true); let sb = defines_str(&db, false, true);
             if sa != sb { return Err("define tables differ between strip_comments on and off".into()); }
             let rest = without_define_lines(tb.text());
-            if tokens(&rest).contains(&Tk::Comment) { return Err("a comment survives strip_comments outside a kept `define".into()); }
+            if tokens(&rest).contains(&Tk::Comment) {
+                // D4 can also arise after substitution (a string actual placed before a comment of the macro body): visible in the unstripped output
+                let d4 = crate::c06::scan_class(ta.text()).1;
+                return Err(format!("a comment survives strip_comments outside a kept `define{}", if d4 { " [unstripped output has a string / escaped identifier directly followed by trivia]" } else { "" }));
+            }
             let had_comment = tokens(ta.text()).contains(&Tk::Comment);
             Ok((true, had_comment))
         }
@@ -97,8 +101,11 @@ pub fn main(args: &[String]) {
                 if ok && hc && rep.samples.len() < 3 { rep.sample(crate::calls::top_text(c).unwrap_or_default().chars().take(200).collect()); } }
             Err(m) => { rep.case(key.as_bytes(), true);
                 let top = crate::calls::top_text(c).unwrap_or_default();
-                let strlike = top.contains('"') || top.contains('\\');
-                if m.contains("survives") && strlike { rep.known("strlit-trailing-trivia", &m, &top, ""); } else { rep.violation(&m, &top, &format!("{:?}", c.files.iter().map(|f| f.0.clone()).collect::<Vec<_>>())); } }
+                // known-finding class D4: some file of the case (or a caller-supplied macro body) has a string literal / escaped identifier directly followed by trivia
+                let strlike = c.files.iter().any(|f| f.1.as_ref().map_or(false, |t| crate::c06::scan_class(t).1))
+                    || c.defines.iter().any(|d| d.1.as_ref().and_then(|x| x.1.as_ref()).map_or(false, |t| crate::c06::scan_class(t).1));
+                let all: String = c.files.iter().map(|f| format!("--- {}\n{}\n", f.0, f.1.clone().unwrap_or_else(|| "<not utf-8>".into()))).collect();
+                if m.contains("survives") && (strlike || m.contains("directly followed by trivia")) { rep.known("strlit-trailing-trivia", &m, &top, ""); } else { rep.violation(&m, &all, &format!("top={} incpaths={:?} defines={:?} ignore={}", c.top, c.incpaths, c.defines, c.ignore)); } }
         }
     }
     rep.write(out);
